@@ -159,7 +159,7 @@ Apply(db, c) ==
     [] c.k = "UpdateSchedule" ->
          \* last_run_time = next_run_time, next_run_time = ?  WHERE id = ? AND next_run_time = ?
          IF Has(db.schedules, c.id) /\ IsSome(c.last) /\ db.schedules[c.id].next = The(c.last)
-         THEN [db EXCEPT !.schedules[c.id] = [@ EXCEPT !.last = Some(@.next), !.next = c.next]]
+         THEN [db EXCEPT !.schedules[c.id] = [@ EXCEPT !.last = Some(db.schedules[c.id].next), !.next = c.next]]
          ELSE db
     [] c.k = "DeleteSchedule" ->
          IF Has(db.schedules, c.id)
